@@ -13,10 +13,12 @@ import (
 	"github.com/MichaelMure/git-bug/cache"
 	"github.com/MichaelMure/git-bug/entities/bug"
 	"github.com/MichaelMure/git-bug/entity"
+	"github.com/MichaelMure/git-bug/repository"
+	"github.com/MichaelMure/git-bug/util/lamport"
 )
 
 type c10cOp struct {
-	K    string `json:"k"` // comment edit editfirst title open close label meta commit
+	K    string `json:"k"` // comment edit editfirst title open close label meta commit failcommit
 	A    int    `json:"a"`
 	X    int    `json:"x"`
 	Y    int    `json:"y"`
@@ -28,6 +30,20 @@ type c10cInput struct {
 
 type c10cDriver struct{}
 
+// c10cFaultRepo: storage whose Lamport clocks cannot be written while *fail is set (disk full, clock file not
+// writable): a commit attempted meanwhile fails half-way.
+type c10cFaultRepo struct {
+	repository.TestedRepo
+	fail *bool
+}
+
+func (r c10cFaultRepo) Increment(name string) (lamport.Time, error) {
+	if *r.fail {
+		return 0, fmt.Errorf("injected: no space left on device")
+	}
+	return r.TestedRepo.Increment(name)
+}
+
 func init() { register("C10c", c10cDriver{}) }
 
 func (c10cDriver) Gen(r *Rand, tier string) []json.RawMessage {
@@ -35,7 +51,7 @@ func (c10cDriver) Gen(r *Rand, tier string) []json.RawMessage {
 	if tier == "thorough" {
 		n = 1200
 	}
-	kinds := []string{"comment", "comment", "edit", "editfirst", "title", "open", "close", "label", "label", "meta", "meta", "commit"}
+	kinds := []string{"comment", "comment", "edit", "editfirst", "title", "open", "close", "label", "label", "meta", "meta", "commit", "failcommit"}
 	var res []json.RawMessage
 	for c := 0; c < n; c++ {
 		var in c10cInput
@@ -105,15 +121,22 @@ func (c10cDriver) Run(raw json.RawMessage) Case {
 		panic(err)
 	}
 	defer os.RemoveAll(dir)
-	repo, err := newTestRepo(dir+"/r", false)
+	repo0, err := newTestRepo(dir+"/r", false)
 	if err != nil {
 		panic(err)
 	}
+	clockFault := false
+	repo := c10cFaultRepo{TestedRepo: repo0, fail: &clockFault}
 	rc, err := cache.NewRepoCacheNoEvents(repo)
 	if err != nil {
 		return Case{Skip: "cache: " + err.Error()}
 	}
-	defer rc.Close()
+	closed := false
+	defer func() {
+		if !closed {
+			rc.Close()
+		}
+	}()
 	var authors []*cache.IdentityCache
 	for a := 0; a < 2; a++ {
 		ic, err := rc.Identities().New(fmt.Sprintf("user%d", a), fmt.Sprintf("u%d@x.org", a))
@@ -205,18 +228,104 @@ func (c10cDriver) Run(raw json.RawMessage) Case {
 			}
 		case "commit":
 			compare()
+		case "failcommit":
+			// a commit attempted while the clocks cannot be written fails; the cached snapshot must go on mirroring
+			// the bug (next comparison: what the snapshot shows is what a commit stores)
+			if bc.NeedCommit() {
+				clockFault = true
+				if err := bc.CommitAsNeeded(); err != nil {
+					tags["commit-fault"] = true
+				}
+				clockFault = false
+			}
 		}
 		tags["op:"+o.K] = true
 	}
 	compare()
-	var fl []string
+	// ---- the same state through the cache's other accessor, on a REOPENED cache ----
+	// ResolveOperationWithMetadata(key, value) is asked on a freshly loaded BugCache before anything else touched
+	// the bug (no Snapshot() yet): the metadata of an operation is a function of the operation sequence, so the
+	// answer must be the one read off a from-scratch compile of the stored operations.
+	var resolves []bool
+	func() {
+		fresh, err := bug.Read(repo, id)
+		if err != nil {
+			resolves = append(resolves, false)
+			tags["read-error"] = true
+			return
+		}
+		want := map[string][]entity.Id{}
+		var questions []string
+		for _, op := range fresh.Compile().Operations {
+			for k, v := range op.AllMetadata() {
+				q := k + "\x00" + v
+				if _, ok := want[q]; !ok {
+					questions = append(questions, q)
+				}
+				want[q] = append(want[q], op.Id())
+			}
+		}
+		sort.Strings(questions)
+		questions = append(questions, "k0\x00no-such-value", "no-such-key\x00v")
+		if err := rc.Close(); err != nil {
+			resolves = append(resolves, false)
+			tags["close-error"] = true
+			return
+		}
+		closed = true
+		rc2, err := cache.NewRepoCacheNoEvents(repo)
+		if err != nil {
+			resolves = append(resolves, false)
+			tags["reopen-error"] = true
+			return
+		}
+		defer rc2.Close()
+		for _, q := range questions {
+			var k, v string
+			for i := 0; i < len(q); i++ {
+				if q[i] == 0 {
+					k, v = q[:i], q[i+1:]
+					break
+				}
+			}
+			// nothing but these questions touches the reloaded bug: no Snapshot() is ever called on it
+			b2, err := rc2.Bugs().Resolve(id)
+			if err != nil {
+				resolves = append(resolves, false)
+				tags["reopen-error"] = true
+				return
+			}
+			got, err := b2.ResolveOperationWithMetadata(k, v)
+			ok := false
+			switch w := want[q]; {
+			case len(w) == 0:
+				ok = err == cache.ErrNoMatchingOp
+			case len(w) == 1:
+				ok = err == nil && got == w[0]
+			default:
+				_, multiple := err.(*entity.ErrMultipleMatch)
+				ok = multiple
+			}
+			if len(want[q]) > 0 {
+				tags["resolve-metadata"] = true
+			}
+			if !ok {
+				tags["resolve-differs"] = true
+			}
+			resolves = append(resolves, ok)
+		}
+	}()
+	var fl, rl []string
 	for _, f := range flags {
 		fl = append(fl, coqBool(f))
+	}
+	for _, f := range resolves {
+		rl = append(rl, coqBool(f))
 	}
 	var tg []string
 	for t := range tags {
 		tg = append(tg, t)
 	}
 	sort.Strings(tg)
-	return Case{Coq: "mkcase10c " + coqList(fl), Obs: map[string]interface{}{"compared": len(flags), "ops": len(opIds)}, Tags: tg, NonTrivial: len(opIds) > 2, Key: string(raw)}
+	return Case{Coq: "mkcase10c " + coqList(fl) + " " + coqList(rl), Obs: map[string]interface{}{"compared": len(flags), "resolved": len(resolves), "ops": len(opIds)}, Tags: tg, NonTrivial: len(opIds) > 2, Key: string(raw)}
 }
